@@ -509,6 +509,13 @@ def sub_large(case):
         elif name == "stats.mean_grp":
             g = ((t // 3 + salt) % 2).astype("int16")
             got, tw = gu(name, (vals, g, 2, float(nd)), [(n, "f4")], twin_ins=(_widen(vals), g, 2, float(nd)))
+        elif name == "stats.rolling_sum" and case.get("f32"):
+            # float32 cells that are not exactly representable, a window almost as long as the series: the source adds the cells one
+            # after the other into a float32 cell, and so must the compiled code (the order of a float32 summation is part of what the
+            # source says - another order differs by 1e-4 .. 1e-2 relative at this length)
+            fv = ((vals.astype(np.int64) % 977) * 0.1).astype("float32")
+            fv[vals == nd] = np.float32(nd)
+            got, tw = gu(name, (fv, n - 2, float(nd)), [(n, "f4")])
         elif name == "stats.rolling_sum":
             got, tw = gu(name, (vals, 5, float(nd)), [(n, "f4")], twin_ins=(_widen(vals), 5, float(nd)))
         elif name == "lroo.lroo":
@@ -591,6 +598,12 @@ def run(ctx):
                 continue
             case = {"prog": name, "n": n + 1009 * k, "salt": ctx.seed * 7 + k}
             rec.case("large", case, nontrivial=True, cls="large:" + name)
+            checked["n"] += 1
+            if not ctx.run_case("large", case):
+                return
+        if "stats.rolling_sum" in PROGS:
+            case = {"prog": "stats.rolling_sum", "n": 60000 + 1009 * k, "salt": ctx.seed * 7 + k, "f32": True}
+            rec.case("large", case, nontrivial=True, cls="large:stats.rolling_sum/float32/long_window")
             checked["n"] += 1
             if not ctx.run_case("large", case):
                 return
